@@ -78,8 +78,10 @@ PROPS["C01"] = {
     "level_text": "Stateful property test: generated histories interleave the real EDS/replica-set reconcilers with kubelet, scheduler, user and node actions (incl. duplicate pods, Failed/Unknown phases, taints, relabels, eligibility-changing templates, canaries); after every reconcile the pod Creates/Deletes it issued are judged against the state it read by an independent eligibility/keeper oracle (no create on absent/unfit/occupied node, never two per node per sync, duplicates resolved to the scheduled-oldest pod, pods on ineligible nodes deleted, Unknown pods untouched). A function-level differential test drives FilterAndMapPodsByNode and CheckNodeFitness with generated nodes, templates and pod multisets against the same oracle, and a native fuzz target covers the eligibility predicate.",
     "level_note": SM_NOTE + " Failed pods inside their deletion back-off may or may not count among the pods of a node (statement readable both ways); reads are linearizable (informer staleness is outside the statement's 'state it read').",
     "technique": "stateful property-based testing (rapid) with per-step invariants + differential testing against a reference eligibility model + native go fuzz",
-    "quick": {"jobs": [rapid_job("sm", "^TestC01SM$", 750, shards=4)]},
-    "thorough": {"jobs": [rapid_job("sm", "^TestC01SM$", 800, shards=16, timeout="50m")]},
+    "quick": {"jobs": [rapid_job("sm", "^TestC01SM$", 750, shards=4), rapid_job("fitness", "^TestC01Fitness$", 20000), rapid_job("filter", "^TestC01Filter$", 5000)]},
+    "thorough": {"jobs": [rapid_job("sm", "^TestC01SM$", 4000, shards=12, timeout="50m"), rapid_job("fitness", "^TestC01Fitness$", 300000, shards=2), rapid_job("filter", "^TestC01Filter$", 60000, shards=2),
+                          fuzz_job("fuzz-fitness", "^FuzzC01Fitness$", fuzztime="90s", workers=4)]},
+    "log_violations": True,
 }
 
 PROPS["C02"] = {
@@ -89,7 +91,7 @@ PROPS["C02"] = {
     "level_note": SM_NOTE + " 'Every fair order' is sampled. The bound (60+8N rounds) is deliberately generous: a livelock fails any bound; requeue timers are not modelled, so a bug that only forgets to requeue is invisible.",
     "technique": "stateful property-based testing (rapid): generated history + stabilisation + fixpoint/convergence oracle",
     "quick": {"jobs": [rapid_job("sm", "^TestC02SM$", 500, shards=4)]},
-    "thorough": {"jobs": [rapid_job("sm", "^TestC02SM$", 600, shards=16, timeout="50m")]},
+    "thorough": {"jobs": [rapid_job("sm", "^TestC02SM$", 2500, shards=16, timeout="50m")]},
 }
 
 PROPS["C04"] = {
@@ -99,7 +101,7 @@ PROPS["C04"] = {
     "level_note": SM_NOTE,
     "technique": "stateful property-based testing (rapid) with per-step invariants over (state read, calls issued)",
     "quick": {"jobs": [rapid_job("sm", "^TestC04SM$", 750, shards=4)]},
-    "thorough": {"jobs": [rapid_job("sm", "^TestC04SM$", 800, shards=16, timeout="50m")]},
+    "thorough": {"jobs": [rapid_job("sm", "^TestC04SM$", 4000, shards=16, timeout="50m")]},
 }
 
 PROPS["C08"] = {
@@ -109,7 +111,7 @@ PROPS["C08"] = {
     "level_note": SM_NOTE,
     "technique": "stateful property-based testing (rapid) with per-step invariants + convergence oracle for 'resume'",
     "quick": {"jobs": [rapid_job("sm", "^TestC08SM$", 500, shards=4)]},
-    "thorough": {"jobs": [rapid_job("sm", "^TestC08SM$", 600, shards=16, timeout="50m")]},
+    "thorough": {"jobs": [rapid_job("sm", "^TestC08SM$", 2500, shards=16, timeout="50m")]},
 }
 
 PROPS["C09"] = {
@@ -119,7 +121,7 @@ PROPS["C09"] = {
     "level_note": SM_NOTE + " t is measured from the Active condition's stored (second-truncated) transition time, one extra second of slack is granted.",
     "technique": "stateful property-based testing (rapid) on a virtual clock with a reference ramp formula",
     "quick": {"jobs": [rapid_job("sm", "^TestC09SM$", 750, shards=4)]},
-    "thorough": {"jobs": [rapid_job("sm", "^TestC09SM$", 800, shards=16, timeout="50m")]},
+    "thorough": {"jobs": [rapid_job("sm", "^TestC09SM$", 4000, shards=16, timeout="50m")]},
 }
 
 PROPS["C12"] = {
@@ -129,7 +131,7 @@ PROPS["C12"] = {
     "level_note": SM_NOTE,
     "technique": "stateful property-based testing (rapid) with a per-call ownership invariant",
     "quick": {"jobs": [rapid_job("sm", "^TestC12SM$", 500, shards=4)]},
-    "thorough": {"jobs": [rapid_job("sm", "^TestC12SM$", 600, shards=16, timeout="50m")]},
+    "thorough": {"jobs": [rapid_job("sm", "^TestC12SM$", 2000, shards=16, timeout="50m")]},
 }
 
 PROPS["C13"] = {
@@ -139,7 +141,7 @@ PROPS["C13"] = {
     "level_note": SM_NOTE,
     "technique": "stateful property-based testing (rapid) with per-step invariants; template hash recomputed independently (MD5 of the JSON rendering)",
     "quick": {"jobs": [rapid_job("sm", "^TestC13SM$", 750, shards=4)]},
-    "thorough": {"jobs": [rapid_job("sm", "^TestC13SM$", 800, shards=16, timeout="50m")]},
+    "thorough": {"jobs": [rapid_job("sm", "^TestC13SM$", 4000, shards=16, timeout="50m")]},
 }
 
 PROPS["C14"] = {
@@ -149,7 +151,7 @@ PROPS["C14"] = {
     "level_note": SM_NOTE,
     "technique": "stateful property-based testing (rapid) against a reference status function + quiescent-state oracle",
     "quick": {"jobs": [rapid_job("sm", "^TestC14SM$", 500, shards=4)]},
-    "thorough": {"jobs": [rapid_job("sm", "^TestC14SM$", 600, shards=16, timeout="50m")]},
+    "thorough": {"jobs": [rapid_job("sm", "^TestC14SM$", 2500, shards=16, timeout="50m")]},
 }
 
 PROPS["C03"]["quick"]["jobs"].append(rapid_job("sm", "^TestC09SM$", 60, shards=2))
